@@ -317,7 +317,7 @@ def _deepcopy(interp, x):
     C = z3.Int(f"C!{h.n_blocks}")
     prev = getattr(h, "block_top", None)
     if prev is None:
-        prev = h.A0 + 1000  # fewer than 1000 allocations per path
+        prev = h.base + h.n_alloc + 1000  # fewer than 1000 further plain allocations per path
     interp.assume(C >= prev)
     h.block_top = C + prev + 1000
     span = lambda r: z3.And(r >= C, r < C + prev)  # noqa
